@@ -31,8 +31,12 @@ def run(rep, tier):
         common.guarded(rep, "C03.8", c03_8, rep, ix, M, cc, branches)
     common.guarded(rep, "C03.4", c03_4, rep, ix, M)
     common.guarded(rep, "C03.5", c03_5, rep, ix, M)
-    from .c05 import shared_tables
-    shared_tables(rep, ix, M.G)
+    from . import c05
+    c05.shared_tables(rep, ix, M.G)
+    # operands: a variable enters an expression with the value stored by its declaration, so the declared type of that value
+    # (int vs float elements behave differently under ** and /) is part of the arithmetic value
+    common.guarded(rep, "C05.2", c05.c05_2, rep, ix)
+    common.guarded(rep, "C05.3", c05.c05_3, rep, ix)
 
 
 # ------------------------------------------------------------------------------------------- C03.1 precedence / associativity
